@@ -42,7 +42,7 @@ TIERS = {
 }
 
 OBSERVE_OPS = ["touch", "contains", "keys", "glyphorder", "glyphset", "bestcmap", "tabledata", "save", "savexml", "deepcopy", "revmap", "ensure_table"]
-EDIT_OPS = ["name", "rev", "os2", "hmtx", "vmtx", "headflags", "cmap", "glyfshift", "compbase", "cffshift", "deltable", "opaque", "reorder", "scale", "subset", "instantiate", "cffwidth", "gposvalue"]
+EDIT_OPS = ["name", "rev", "os2", "os2stale", "hmtx", "vmtx", "headflags", "cmap", "glyfshift", "compbase", "cffshift", "flavordata", "deltable", "opaque", "reorder", "scale", "subset", "instantiate", "cffwidth", "gposvalue"]
 BIG_EDITS = ("reorder", "scale", "subset", "instantiate")
 
 
@@ -225,6 +225,21 @@ def generate(ctx, batch, idx):
                 seen += 1
                 if seen > 2:
                     op[0] = "rev"
+        if r.random() < 0.06:
+            # a WOFF session: a metadata object attached once, every intermediate save is a WOFF, and the
+            # font revision changes between saves (the container version follows it unless given)
+            ops.insert(0, ["flavordata", {"k": 0, "versioned": r.random() < 0.3, "meta": r.random() < 0.4}])
+            first_save = None
+            for j_, op in enumerate(ops):
+                if op[0] == "save":
+                    op[1]["flavor"] = "woff"
+                    if first_save is None:
+                        first_save = j_
+            if first_save is None:
+                ops.insert(1, ["save", dict(_gen_save(r), flavor="woff")])
+                first_save = 1
+            ops.insert(first_save + 1, ["rev", {"k": r.randrange(1 << 16)}])
+            ops.insert(first_save + 2, ["save", dict(_gen_save(r), flavor="woff")])
         if info.get("bytag"):
             # a font chosen for a rare table kind: most of these histories contain a whole-font
             # transformation (where table-specific code runs) and compare the dump across the save
@@ -511,7 +526,8 @@ def apply_edit(font, name, a):
     if name == "cmap":
         if "cmap" in font:
             go = font.getGlyphOrder()
-            g = _sel(go, k)
+            # (never .notdef: a mapping to glyph 0 is "no mapping" and legitimately not stored)
+            g = _sel(go[1:] or go, k)
             cp = 0xE000 + (k % 0x1000)
             for st in font["cmap"].tables:
                 if st.isUnicode() and st.format in (4, 12):
@@ -569,6 +585,25 @@ def apply_edit(font, name, a):
             pd = c.private
             if hasattr(c, "width") and pd is not None:
                 c.width = pd.nominalWidthX + 1 + (k % 50)
+        return font
+    if name == "os2stale":
+        # values the dump itself announces as "will be recalculated by the compiler": a caller may leave
+        # anything there (e.g. an OS/2 table copied from another font)
+        if "OS/2" in font:
+            font["OS/2"].usFirstCharIndex = 0x21 + k % 7
+            font["OS/2"].usLastCharIndex = 0xF000 + k % 255
+        return font
+    if name == "flavordata":
+        # user-supplied container metadata object (WOFF version left open = "follow head.fontRevision",
+        # or given), kept on the font across saves
+        from fontTools.ttLib.sfnt import WOFFFlavorData
+
+        fd = WOFFFlavorData()
+        if a.get("versioned"):
+            fd.majorVersion, fd.minorVersion = 1, 7
+        if a.get("meta"):
+            fd.metaData = b'<?xml version="1.0" encoding="UTF-8"?><metadata version="1.0"><uniqueid id="verif"/></metadata>'
+        font.flavorData = fd
         return font
     if name == "cffshift":
         # moves the outline of one CFF glyph by editing its charstring program in place (the first moveto's
@@ -1078,8 +1113,9 @@ def exec_hist(ctx, h, src, scratch):
         font, steps, saves, aborted, clock = run_observed(src, h, scratch, events, probes, faults)
         res["sim_time"] = clock.span()
     res["nontrivial"] = any(s.get("kind") == "edit" or s.get("new") or s["op"] in ("save", "savexml", "failsave", "deepcopy") for s in steps[1:])
-    # which saves to check: the last, plus up to n_checked-1 earlier plain-flavour saves
-    checkable = [s for s in saves if not s[1].get("flavor")]
+    # which saves to check: the last, plus up to n_checked-1 earlier plain or WOFF saves (a WOFF2 save
+    # decodes and re-encodes glyph data itself; it is covered by C04 and the pipelines)
+    checkable = [s for s in saves if s[1].get("flavor") in (None, "woff")]
     if not checkable and aborted is None:
         return res
     picks = checkable[-1:]
@@ -1127,6 +1163,29 @@ def exec_hist(ctx, h, src, scratch):
         }
     if xml_state.get("before") is not None:
         probes["xml.before_after_save_compared"] = 1
+    # observing is not editing: with no EDIT anywhere in the history, whatever was touched, dumped or saved
+    # on the way, a plain save of a canonical font (a recompile fixed point) is the file it was opened from
+    if aborted is None and not any(s.get("kind") == "edit" for s in steps[1:]) and not any(o[0] in ("failsave",) for o in h["ops"]):
+        for i, params, out in picks:
+            if params.get("flavor") is None and isinstance(out, bytes) and params.get("reorder", True) is True and not res.get("violation"):
+                probes["observe_only.compared_with_file"] = probes.get("observe_only.compared_with_file", 0) + 1
+                same = out == src
+                if not same and h["knobs"].get("pin") == "sde":
+                    # the pinned clock (SOURCE_DATE_EPOCH) legitimately restamps head.modified
+                    from oracles import container
+
+                    try:
+                        ta, tb = container.tables_of(out), container.tables_of(src)
+                        mk = lambda d: d[:8] + d[12:28] + d[36:]  # noqa: E731  without checkSumAdjustment, modified
+                        same = set(ta) == set(tb) and all((mk(ta[t]) == mk(tb[t])) if t == "head" else ta[t] == tb[t] for t in ta) and container.order_of(out) == container.order_of(src)
+                    except Exception:
+                        same = False
+                if not same:
+                    res["violation"] = {
+                        "class": "observe-only-history-changes-the-font",
+                        "detail": "no EDIT in the history, yet the save at op %d differs from the canonical file the font was opened from in %s (lazy=%s, loaded %s) font=%s" % (i, diff_tables(out, src), h["knobs"].get("lazy"), sorted(loaded_set(font))[:12], h["font"]),
+                        "sig": _signature(h, i, diff_tables(out, src), steps),
+                    }
     for i, params, out in sorted(picks, key=lambda s: s[0]):
         if aborted is not None and i > aborted:
             continue
